@@ -706,7 +706,152 @@ def r5_accumulators(repo: Repo, rep):
                 rep.check(R, has_dev, fi.site(a), fi.fq, f"out-of-place accumulator `{var}` on the input's device (dtype follows by promotion)", dump(a.value)[:110], f"{var}: device={has_dev}")
 
 
+# ------------------------------------------------------------------ R-C03-8
+ANY_RANK = ("laplacian", "grad", "normal_derivative", "div", "partial")  # confirmed on the pristine tree: components addressed from the end only
+
+
+def _axis1_evidence(fn_node: ast.AST):
+    """constructs that address tensor axis 1 counted from the front (valid only for 2-D batches)"""
+    out = []
+    for n in ast.walk(fn_node):
+        if isinstance(n, ast.Subscript) and isinstance(n.slice, ast.Tuple) and len(n.slice.elts) >= 2:
+            el = n.slice.elts
+            full = isinstance(el[0], ast.Slice) and el[0].lower is None and el[0].upper is None and el[0].step is None
+            if full and not any(isinstance(x, ast.Constant) and x.value is Ellipsis for x in el):
+                out.append(dump(n)[:40])
+        if isinstance(n, ast.Call):
+            nm = n.func.attr if isinstance(n.func, ast.Attribute) else ""
+            for k in n.keywords:
+                if k.arg in ("dim", "axis", "dim1", "dim2", "dim0") and isinstance(k.value, ast.Constant) and k.value.value in (1, 2):
+                    out.append(dump(n)[:40])
+            if nm in ("narrow", "squeeze", "unsqueeze", "select", "transpose") and n.args:
+                pos = n.args[1:] if attr_chain(n.func) and attr_chain(n.func).startswith("torch.") else n.args
+                if pos and isinstance(pos[0], ast.Constant) and pos[0].value in (1, 2) and nm != "transpose":
+                    out.append(dump(n)[:40])
+    return out
+
+
+def r8_batch_rank(repo: Repo, rep):
+    R = rep.rule("R-C03-8", "operators that accept any batch shape (components addressed with narrow(-1, ..) / dim=-1 only) stay that way: they neither address axis 1 "
+                 "from the front nor delegate to an operator that does", floor=5,
+                 why="`[:, i]`, dim=1 or a call of jac() inside div / grad / laplacian silently mixes rows and components for batches with more than one leading axis")
+    mod = repo.module("utils.differentialoperators")
+    funcs = mod.functions
+    direct = {name: _axis1_evidence(fi.node) for name, fi in funcs.items()}
+
+    def reach(name, seen):
+        if name in seen:
+            return None
+        seen.add(name)
+        if direct.get(name):
+            return [name]
+        fi = funcs[name]
+        for c in ast.walk(fi.node):
+            if isinstance(c, ast.Call) and isinstance(c.func, ast.Name) and c.func.id in funcs and c.func.id != name:
+                sub = reach(c.func.id, seen)
+                if sub:
+                    return [name] + sub
+        return None
+    for name in ANY_RANK:
+        fi = funcs.get(name)
+        if fi is None:
+            raise AnalysisError(f"differentialoperators.{name} vanished")
+        rep.saw(fi)
+        chain = reach(name, set())
+        detail = ""
+        if chain:
+            detail = " -> ".join(chain) + f": {direct[chain[-1]][0]}"
+        rep.check(R, not chain, fi.site(), fi.fq, "no front-counted axis in the operator or in the operators it calls", detail, f"{name}: {detail}")
+
+
+def _inside_subscript_index(root: ast.AST, x: ast.AST) -> bool:
+    """x lies in the index part of a subscript of root (index arithmetic is not tensor arithmetic)"""
+    for s_ in ast.walk(root):
+        if isinstance(s_, ast.Subscript) and any(y is x for y in ast.walk(s_.slice)):
+            return True
+    return False
+
+
+def _view_of_params(name: str, fn_node: ast.AST, params, views, seen) -> bool:
+    """every binding of `name` in the function is a parameter or a selection / view chain that ends at a parameter"""
+    if name in seen:
+        return True
+    seen.add(name)
+    binds = [a.value for a in ast.walk(fn_node) if isinstance(a, ast.Assign) and len(a.targets) == 1 and isinstance(a.targets[0], ast.Name) and a.targets[0].id == name]
+    other = [a for a in ast.walk(fn_node) if isinstance(a, ast.Name) and isinstance(a.ctx, ast.Store) and a.id == name]
+    if len(other) != len(binds):
+        return False  # bound by a loop / unpacking / augmented assignment
+    if not binds:
+        return name in params
+    for v in binds:
+        base = v
+        while isinstance(base, (ast.Subscript, ast.Attribute, ast.Call)):
+            if isinstance(base, ast.Call):
+                if not (isinstance(base.func, ast.Attribute) and base.func.attr in views):
+                    return False
+                base = base.func
+            else:
+                base = base.value
+        if not isinstance(base, ast.Name) or not _view_of_params(base.id, fn_node, params, views, seen):
+            return False
+    return name in params or bool(binds)
+
+
+# ------------------------------------------------------------------ R-C03-9
+def r9_autograd_functions(repo: Repo, rep):
+    R = rep.rule("R-C03-9", "custom autograd Functions keep their backward differentiable: save_for_backward / ctx attributes receive forward's own arguments, "
+                 "never tensors computed inside forward (those are computed without a graph and enter the backward as constants)", floor=3,
+                 why="a stored local derivative gives exact first derivatives but drops its own derivative: laplacian / second partials through the layer silently lose terms")
+    n = 0
+    for mname, m in repo.modules.items():
+        classes = list(m.classes.values())
+        for ci in classes:
+            if not any(ends(dump(b), "autograd.Function") for b in ci.node.bases):
+                continue
+            fw = ci.methods.get("forward")
+            if fw is None:
+                continue
+            rep.saw(fw)
+            params = set(fw.params)
+            ctx = fw.params[0] if fw.params else "ctx"
+            from ..util import single_defs
+            tmp = single_defs(fw.node)
+            for c in ast.walk(fw.node):
+                if isinstance(c, ast.Call) and dump(c.func) == f"{ctx}.save_for_backward":
+                    n += 1
+                    bad, unclear = [], []
+                    from ..util import deref
+                    VIEWS = ("unsqueeze", "squeeze", "reshape", "view", "transpose", "contiguous", "expand", "expand_as", "permute", "flatten", "narrow", "select", "t", "detach", "clone", "to", "float", "double")
+                    for a in c.args:
+                        v = deref(a, tmp)
+                        computed = any(isinstance(x, (ast.BinOp, ast.Compare, ast.BoolOp)) or (isinstance(x, ast.UnaryOp) and not isinstance(x.op, ast.USub) or isinstance(x, ast.UnaryOp) and not isinstance(x.operand, ast.Constant))
+                                       or (isinstance(x, ast.Call) and not (isinstance(x.func, ast.Attribute) and x.func.attr in VIEWS and not (attr_chain(x.func) or "").startswith("torch."))) for x in ast.walk(v)
+                                       if not _inside_subscript_index(v, x))
+                        base = v
+                        while isinstance(base, (ast.Subscript, ast.Attribute, ast.Call)):
+                            base = base.func if isinstance(base, ast.Call) else base.value
+                        if computed:
+                            bad.append(dump(v)[:60])
+                        elif not (isinstance(base, ast.Name) and _view_of_params(base.id, fw.node, params, VIEWS, set())):
+                            unclear.append(dump(v)[:60])
+                    if unclear and not bad:
+                        rep.undecided(R, fw.site(c), fw.fq, "saved tensors recognisable as (views of) forward's arguments", str(unclear))
+                    else:
+                        rep.check(R, not bad, fw.site(c), fw.fq, "only arguments of forward (or selections / views of them) are saved for the backward pass", f"saved: {bad}", f"{ci.name}: saves {bad}")
+                if isinstance(c, ast.Assign) and any(isinstance(t, ast.Attribute) and dump(t.value) == ctx for t in c.targets):
+                    v = c.value
+                    computed = any(isinstance(x, (ast.BinOp, ast.Compare)) or (isinstance(x, ast.Call) and (attr_chain(x.func) or "").startswith("torch.")) for x in ast.walk(v)) \
+                        and any(isinstance(x, ast.Name) and x.id in params and x.id != ctx for x in ast.walk(v))
+                    n += 1
+                    rep.check(R, not computed, fw.site(c), fw.fq, "context attributes hold arguments / plain settings, no tensor computed in forward", dump(c)[:80], f"{ci.name}: {dump(c)[:80]}")
+    # nested classes (e.g. GradReverse inside a model class) hold no state; they are listed by the class scan of their module when top-level only
+    if n == 0:
+        rep.undecided(R, "src/torchphysics", "-", "autograd Functions with saved state", "none found")
+
+
 def run(repo: Repo, rep):
+    r8_batch_rank(repo, rep)
+    r9_autograd_functions(repo, rep)
     r1_call_discipline(repo, rep)
     r2_pairing(repo, rep)
     r3_tables(repo, rep)
